@@ -14,6 +14,7 @@ import (
 	"mime"
 	"strconv"
 	"strings"
+	"sync/atomic"
 	"time"
 
 	"github.com/la5nta/wl2k-go/transport"
@@ -452,6 +453,11 @@ func (s *Session) writeCompressed(rw io.ReadWriter, p *Proposal) (err error) {
 
 	buffer := bytes.NewBuffer(p.compressedData[p.offset:])
 
+	// Number of bytes not yet written. Shared with the status goroutine
+	// below, which must not touch the buffer itself.
+	var remaining int64
+	atomic.StoreInt64(&remaining, int64(buffer.Len()))
+
 	// Update Status of message transfer every 250ms
 	statusTicker := time.NewTicker(250 * time.Millisecond)
 	statusDone := make(chan struct{})
@@ -469,7 +475,7 @@ func (s *Session) writeCompressed(rw io.ReadWriter, p *Proposal) (err error) {
 					txBufLen = b.TxBufferLen()
 				}
 
-				transferred := p.compressedSize - buffer.Len() - txBufLen
+				transferred := p.compressedSize - int(atomic.LoadInt64(&remaining)) - txBufLen
 				if transferred < 0 {
 					transferred = 0
 				}
@@ -485,7 +491,7 @@ func (s *Session) writeCompressed(rw io.ReadWriter, p *Proposal) (err error) {
 				if s.statusUpdater != nil {
 					s.statusUpdater.UpdateStatus(Status{
 						Sending:          p,
-						BytesTransferred: p.compressedSize - buffer.Len(),
+						BytesTransferred: p.compressedSize - int(atomic.LoadInt64(&remaining)),
 						BytesTotal:       p.compressedSize,
 						Done:             true,
 					})
@@ -518,6 +524,7 @@ func (s *Session) writeCompressed(rw io.ReadWriter, p *Proposal) (err error) {
 		if err = writer.Flush(); err != nil {
 			return err
 		}
+		atomic.StoreInt64(&remaining, int64(buffer.Len()))
 	}
 
 	// Checksum
@@ -612,6 +619,10 @@ func (s *Session) readCompressed(rw io.ReadWriter, p *Proposal) (err error) {
 		s.log.Println("GZIP_EXPERIMENT:", "Receiving gzip compressed message.")
 	}
 
+	// Number of bytes received so far. Shared with the status goroutine
+	// below, which must not touch the buffer itself.
+	var received int64
+
 	statusUpdate := make(chan struct{})
 	go func() {
 		for {
@@ -619,7 +630,7 @@ func (s *Session) readCompressed(rw io.ReadWriter, p *Proposal) (err error) {
 			if s.statusUpdater != nil {
 				s.statusUpdater.UpdateStatus(Status{
 					Receiving:        p,
-					BytesTransferred: buf.Len(),
+					BytesTransferred: int(atomic.LoadInt64(&received)),
 					BytesTotal:       p.compressedSize,
 					Done:             !ok,
 				})
@@ -629,8 +640,12 @@ func (s *Session) readCompressed(rw io.ReadWriter, p *Proposal) (err error) {
 			}
 		}
 	}()
-	defer func() { close(statusUpdate) }()
+	defer func() {
+		atomic.StoreInt64(&received, int64(buf.Len()))
+		close(statusUpdate)
+	}()
 	updateStatus := func() {
+		atomic.StoreInt64(&received, int64(buf.Len()))
 		select {
 		case statusUpdate <- struct{}{}:
 		default:
